@@ -6,6 +6,7 @@ package c17
 
 import (
 	"fmt"
+	pathpkg "path"
 	"sort"
 	"strings"
 	"time"
@@ -365,6 +366,89 @@ func readWindow(c *evid.Ctx) {
 	}
 }
 
+// readPaths: every spelling of a file name built from up to four components out of
+// {"..", ".", "", "sub", a file name inside logs, a file name outside logs}, relative and rooted. The
+// reference is the path algebra of the standard library: the name denotes
+// Clean(<home>/logs + "/" + name); when that is not below <home>/logs nothing may be served, when it
+// is, whatever is served is the content of exactly that file.
+func readPaths(c *evid.Ctx) {
+	vrt.Policy = vrt.PolicySuppressed
+	defer func() { vrt.Policy = vrt.PolicyReal }()
+	mem := vos.NewMemFS()
+	vos.Use(mem)
+	defer vos.Use(nil)
+	vtime.SetVirtual(time.Date(2024, 3, 10, 12, 0, 0, 0, time.UTC))
+	defer vtime.ClearVirtual()
+	mem.MkdirAll(logsDir + "/sub")
+	fl := newLogger(logger.LOG_LEVEL_WARN)
+	files := map[string]string{
+		logsDir + "/in.log":      "INSIDE-TOP",
+		logsDir + "/sub/in.log":  "INSIDE-SUB",
+		logsDir + "/sub/out.log": "INSIDE-SUB-NAMED-LIKE-OUTSIDE",
+		home + "/out.log":        "SECRET-BESIDE-LOGS",
+		home + "/in.log":         "SECRET-BESIDE-LOGS-SAME-NAME",
+		home + "/sub/in.log":     "SECRET-SIBLING-DIRECTORY",
+		"/out.log":               "SECRET-AT-THE-ROOT",
+		"/in.log":                "SECRET-AT-THE-ROOT-SAME-NAME",
+		"/sub/in.log":            "SECRET-ROOT-SUB",
+	}
+	for f, body := range files {
+		mem.MkdirAll(pathpkg.Dir(f))
+		mem.WriteFile(f, []byte(body))
+	}
+	comps := []string{"..", ".", "", "sub", "in.log", "out.log"}
+	var names []string
+	var gen func(prefix []string, depth int)
+	gen = func(prefix []string, depth int) {
+		if len(prefix) > 0 {
+			names = append(names, strings.Join(prefix, "/"), "/"+strings.Join(prefix, "/"))
+		}
+		if depth == 0 {
+			return
+		}
+		for _, cmp := range comps {
+			gen(append(append([]string{}, prefix...), cmp), depth-1)
+		}
+	}
+	gen(nil, 4)
+	seen := map[string]bool{}
+	for _, name := range names {
+		if name == "" || seen[name] {
+			continue
+		}
+		seen[name] = true
+		c.Count("read_path_cases", 1)
+		c.Count("evaluations", 1)
+		target := pathpkg.Clean(logsDir + "/" + name)
+		inside := strings.HasPrefix(target, logsDir+"/")
+		var ld *logfile.LogData
+		var perr interface{}
+		func() {
+			defer func() { perr = recover() }()
+			ld = fl.Read(name, -1, 1000)
+		}()
+		if perr != nil {
+			c.Violation("C17:read:panic", fmt.Sprintf("Read(%q, -1, 1000) panicked: %v", name, perr), map[string]interface{}{"name": name})
+			continue
+		}
+		if ld == nil {
+			continue
+		}
+		if !inside {
+			c.Violation("C17:read:outside-logs", fmt.Sprintf("Read(%q, -1, 1000) served %q: the name denotes %s, which is not below %s", name, clip(ld.Text), target, logsDir), map[string]interface{}{"name": name, "denotes": target})
+			continue
+		}
+		want, ok := files[target]
+		if !ok {
+			c.Violation("C17:read:phantom", fmt.Sprintf("Read(%q, -1, 1000) returned %q although %s does not exist", name, clip(ld.Text), target), map[string]interface{}{"name": name})
+			continue
+		}
+		if ld.Text != want {
+			c.Violation("C17:read:content", fmt.Sprintf("Read(%q, -1, 1000) returned %q, the file %s holds %q", name, clip(ld.Text), target, want), map[string]interface{}{"name": name})
+		}
+	}
+}
+
 func clip(s string) string {
 	if len(s) > 24 {
 		return s[:24]
@@ -672,6 +756,7 @@ func Run(c *evid.Ctx) {
 	}
 	retention(c)
 	readWindow(c)
+	readPaths(c)
 	suppression(c)
 	reopen(c)
 	shard.Spawn(c, 16, true)
